@@ -28,7 +28,7 @@ def shards(tier, seed):
 
 def floors(tier):
     f = {"programs:A": 300, "programs:B": 150, "programs:no_MR": 50, "programs:no_ee_cnot": 50, "programs:no_one_qubit_gate": 10,
-         "programs:with_wrappers_and_identities": 100, "programs:re_evaluated_after_removal": 200, "programs:A_with_Z_measurement": 40}
+         "programs:with_wrappers_and_identities": 100, "programs:re_evaluated_after_removal": 200, "programs:A_with_Z_measurement": 40, "programs:scored_by_reused_metric_objects": 150}
     for m in METRICS:
         f["metric:" + m] = 300
     return f
@@ -92,10 +92,18 @@ def check_program(pseed, ctx):
     else:
         prog, circ = programs.random_program(rng, int(rng.integers(0, 3)) , int(rng.integers(1, 4)), int(rng.integers(1, 3)), int(rng.integers(0, 14)), adversarial=False)
     case = {"pseed": pseed, "class": klass, "program": prog.text(), "registers": [prog.n_e, prog.n_p, prog.n_c]}
-    check_metrics(prog, circ, klass, rng, ctx, case, stage=0)
+    # metric objects live as long as a solver does: half of the programs are scored by objects that have scored another
+    # circuit before (and all are scored again by the same objects after the circuit was edited)
+    pool = {}
+    if rng.random() < 0.5:
+        dprog, dcirc = gen_A(np.random.default_rng([*pseed, 1]), allow_big=False)
+        pool["decoy"] = dcirc
+        ctx.count("programs:scored_by_reused_metric_objects")
+    check_metrics(prog, circ, klass, rng, ctx, case, stage=0, pool=pool)
 
 
-def check_metrics(prog, circ, klass, rng, ctx, case, stage):
+def check_metrics(prog, circ, klass, rng, ctx, case, stage, pool=None):
+    pool = {} if pool is None else pool
     import graphiq.metrics as gm
     kinds = [o.kind for o in prog.live_ops()]
     if stage == 0:
@@ -129,7 +137,15 @@ def check_metrics(prog, circ, klass, rng, ctx, case, stage):
             ctx.case((tuple(o.text() for o in prog.live_ops()), name, mode, stage), len(kinds) >= 3,
                      {"program": prog.text(), "metric": name, "expected": want} if ctx.evaluations % 1500 == 0 else None)
             try:
-                met = getattr(gm, name)() if mode == "default" else getattr(gm, name)(**{kw_name[name]: pen})
+                met = pool.get((name, mode))
+                if met is None:
+                    met = getattr(gm, name)() if mode == "default" else getattr(gm, name)(**{kw_name[name]: pen})
+                    pool[(name, mode)] = met
+                    if "decoy" in pool:
+                        try:
+                            met.evaluate(None, pool["decoy"])
+                        except Exception:
+                            pass
                 got = met.evaluate(None, circ)
             except Exception as e:
                 ctx.violation("metric_raises", case, {"metric": name, "construction": mode, "exception": f"{type(e).__name__}: {e}"[:300]},
@@ -184,4 +200,4 @@ def check_metrics(prog, circ, klass, rng, ctx, case, stage):
                 prog.remove(o.id)
                 edits.append("remove " + o.text())
         ctx.count("programs:re_evaluated_after_removal")
-        check_metrics(prog, circ, klass, rng, ctx, dict(case, after_edits=edits), stage=1)
+        check_metrics(prog, circ, klass, rng, ctx, dict(case, after_edits=edits), stage=1, pool=pool)
